@@ -177,6 +177,9 @@ class WebSession(object):
             else:
                 request = self._request_factory(url)
 
+            if request.url_info.scheme not in ('http', 'https'):
+                raise ValueError('Not a HTTP URL.')
+
             request.prepare_for_send()
         except ValueError as error:
             raise ProtocolError('Invalid redirect location.') from error
